@@ -29,7 +29,8 @@ func (dv *Router) advertSyncSendInterest() (err error) {
 
 func (dv *Router) advertSyncSendInterestImpl(prefix enc.Name) (err error) {
 	// SVS v2 Sync Interest
-	syncName := append(prefix, enc.NewVersionComponent(2))
+	// (copy the prefix: it is shared, and this function runs concurrently)
+	syncName := append(prefix.Clone(), enc.NewVersionComponent(2))
 
 	// Sync Interest parameters for SVS
 	cfg := &ndn.InterestConfig{
